@@ -274,10 +274,10 @@ Section WithSort.
     destruct (p_conns (peer_at s q)); [discriminate|discriminate].
   Qed.
 
-  Lemma model_trim_ok_l : forall cfg s, inv s -> 0 <= c_low cfg ->
+  Lemma model_trim_ok_l : forall cfg s, inv s ->
     trim_ok cfg (abs s) (snd (trim sort cfg s)) = true.
   Proof.
-    intros cfg s Hinv Hlow. unfold trim, trim_ok, disabled.
+    intros cfg s Hinv. unfold trim, trim_ok, disabled.
     destruct ((c_low cfg =? 0) || (c_high cfg =? 0)) eqn:Ed; cbn [orb snd]; [reflexivity|].
     rewrite (acount_abs s Hinv). destruct (count s <=? c_low cfg) eqn:Ec; cbn [orb snd]; [reflexivity|].
     rewrite (select_g_eq _ _ _ (cands_first cfg s sort sort_perm)).
